@@ -28,4 +28,6 @@ PROP = {
     'timeout_quick': 600, 'timeout_thorough': 2400},
    {'name': 'TestVerifC06_VetoRacingClose', 'unit': 'core:server', 'quick': 40, 'thorough': 400, 'shards': 1, 'shards_thorough': 4,
     'timeout_quick': 600, 'timeout_thorough': 1800},
+   {'name': 'TestVerifC06_TeardownWindow', 'unit': 'core:server', 'quick': 150, 'thorough': 1500, 'shards': 1, 'shards_thorough': 4,
+    'timeout_quick': 600, 'timeout_thorough': 2400},
  ]}
